@@ -7,12 +7,65 @@ COMMON_ASSUMPTIONS = [
 ]
 
 CHECKS = {
+    "C02": {
+        "test": "TestC02",
+        "level": "exploration",
+        "text": "Generated histories (consumers with all power-shaping combinations, opt-ins/outs, key assignments, staking changes, jailing, governance changes of the active-set size) on the real provider app; at every epoch and at every launch the stored consumer validator set is compared with an expectation computed from x/staking state, the provider's own recorded consensus set and the stored parameters. Exploration only.",
+        "note": "Trusted: harness block driver, x/staking/x/slashing as source of truth, exported provider getters for parameters/opt-ins/keys.",
+        "technique": "stateful property-based testing (rapid) with a reference eligibility predicate evaluated on real staking state after every epoch and launch",
+        "rule": "histories of create/update/remove-consumer, opt-in/out, key assignment, commission, staking txs, downtime, gov changes of M; non-trivial = at some epoch or launch a stored consumer set was a strict non-empty subset of the bonded validators and at least one exclusion reason (not opted in, allowlist, denylist, min stake, inactive) applied to a bonded validator; distinct = distinct (config, trace) hash",
+        "quick": {"cases": 800, "steps": 60, "floors": {"_nontrivial": 150}},
+        "thorough": {"cases": 16000, "steps": 90, "floors": {"_nontrivial": 1000}},
+        "assumptions": COMMON_ASSUMPTIONS,
+    },
+    "C03": {
+        "test": "TestC03",
+        "level": "exploration",
+        "text": "Two generated searches: (a) ComputeMinPowerInTopN on generated power vectors against an integer brute force of the threshold definition, (b) histories with governance-owned Top-N consumers on the real provider app where after every epoch the stored threshold, the automatic opt-ins and the membership are compared with a brute force over the provider's active set, and every opt-out attempt is checked against the threshold in force. Exploration only.",
+        "note": "Trusted: harness block driver; x/staking last powers; the in-memory keeper with a staking stub for the function-level part; total power <= 1e15 so the code's 18-digit decimal comparison is exact.",
+        "technique": "property-based testing: differential against a brute-force reference (function level) and stateful rapid histories with a reference threshold/opt-out model",
+        "rule": "function level: power vectors of 1-60 validators from 7 shape classes, N in [1,100] biased to [50,100]; non-trivial = at least two distinct power values. history level: non-trivial = some Top-N consumer had two different thresholds at different epochs and an opt-out was attempted on it; distinct = distinct input / trace hash",
+        "quick": {"parts": [
+            {"test": "TestC03MinPower", "cases": 200000, "floors": {"_nontrivial": 50000, "threshold-middle": 5000, "threshold-all": 2000}},
+            {"test": "TestC03", "cases": 640, "steps": 60, "floors": {"_nontrivial": 30, "optout-above": 40, "optout-below": 40}},
+        ]},
+        "thorough": {"parts": [
+            {"test": "TestC03MinPower", "cases": 3000000},
+            {"test": "TestC03", "cases": 12000, "steps": 100, "floors": {"_nontrivial": 500}},
+        ]},
+        "assumptions": COMMON_ASSUMPTIONS,
+    },
+    "C04": {
+        "test": "TestC04",
+        "level": "exploration",
+        "text": "Three generated searches: NoMoreThanPercentOfTheSum against the exact-arithmetic statement of the power-cap clause (plus a bounded-exhaustive pass over all vectors with n<=4, powers<=5, all percentages); PartitionBasedOnPriorityList+CapValidatorSet against size and rank-optimality; and histories on the real provider app where every stored consumer set is checked for cap size, rank-optimality among the eligible validators and the power-cap predicate applied to provider powers. Exploration only (the small pass is exhaustive for its bound).",
+        "note": "Trusted: harness block driver; the eligibility predicate shared with C02; in-memory keeper for the priority list part.",
+        "technique": "property-based testing with exact-arithmetic validity predicates (function level, incl. bounded exhaustive enumeration) and stateful rapid histories checking the stored sets",
+        "rule": "function level: power vectors of 1-80 validators (7 shape classes, totals up to 2^60), percent 1..100, caps 0..n+2, random priority lists; non-trivial = the cap binds (some power above the cap with a feasible cap, or infeasible cap) / the set cap cuts somebody. history level: non-trivial = a stored set was cut by a validator-set cap or shaped by a binding/infeasible power cap; distinct = distinct input / trace hash",
+        "quick": {"parts": [
+            {"test": "TestC04PowerCap", "cases": 200000, "floors": {"cap-feasible-binding": 20000, "cap-infeasible": 20000}},
+            {"test": "TestC04SetCap", "cases": 100000, "floors": {"setcap-cut": 20000}},
+            {"test": "TestC04", "cases": 640, "steps": 60, "floors": {"_nontrivial": 60}},
+        ]},
+        "thorough": {"parts": [
+            {"test": "TestC04PowerCap", "cases": 3000000},
+            {"test": "TestC04SetCap", "cases": 1000000},
+            {"test": "TestC04", "cases": 12000, "steps": 100, "floors": {"_nontrivial": 1000}},
+        ]},
+        "assumptions": COMMON_ASSUMPTIONS,
+    },
     "C15": {
         "test": "TestC15",
         "level": "exploration",
+        "text": "Generated staking/slashing/governance histories on the real provider application; after every block the engine-side validator set, the recorded set, x/staking state and the staking views exposed to gov/mint are compared. Exploration: thousands of histories per run, no exhaustiveness.",
+        "note": "Trusted: the harness block driver (CometBFT contract emulation), x/staking and x/slashing as the source of truth for bonded status and power.",
+        "technique": "stateful property-based testing (rapid state machine) against an invariant oracle computed from x/staking state and the engine-side accumulated validator set",
         "rule": "histories of staking txs (delegate/undelegate/redelegate/create-validator/unjail), downtime and double-sign evidence, governance changes of MaxProviderConsensusValidators and staking MaxValidators on the real provider app; non-trivial = some bonded validator entered and some bonded validator left the provider consensus set by crossing the top-M boundary; distinct = distinct (config, action trace) hash",
         "quick": {"cases": 800, "steps": 40, "floors": {"_nontrivial": 100, "cross-M-up": 100, "cross-M-down": 100}},
         "thorough": {"cases": 24000, "steps": 70, "floors": {"_nontrivial": 2000}},
         "assumptions": COMMON_ASSUMPTIONS,
     },
 }
+
+NOT_APPLICABLE = {}
+HOOK_COMMITS = []
